@@ -2,6 +2,7 @@ package props
 
 import (
 	"fmt"
+	"regexp"
 	"strings"
 	"time"
 
@@ -14,6 +15,12 @@ import (
 
 // ---------------------------------------------------------------------------------------------
 // C20 — a scan never panics or wedges on odd objects or failing APIs
+
+var (
+	// package.(*Type).Method or package.Func at the end of an import path, without arguments
+	frameRe = regexp.MustCompile(`([A-Za-z0-9_]+\.(?:\(\*?[A-Za-z0-9_]+\)\.)?[A-Za-z0-9_]+)\(`)
+	hexRe   = regexp.MustCompile(`0x[0-9a-f]+`)
+)
 
 // NoCrash: no panic, no hang, only the not-in-group condition stops the controller, and the scan
 // after a faulted scan is normal.
@@ -34,14 +41,12 @@ func (m *NoCrash) AfterScan(ctx *h.ScanCtx) []h.Violation {
 	case r.Panic != nil:
 		fn := "unknown"
 		if parts := strings.Split(r.Stack, " <- "); len(parts) > 0 && parts[0] != "" {
-			fn = parts[0]
-			if i := strings.LastIndex(fn, "/"); i >= 0 {
-				fn = fn[i+1:]
-			}
-			if i := strings.Index(fn, "("); i > 0 && !strings.HasPrefix(fn[i:], "(*") {
-				fn = fn[:i]
+			if m := frameRe.FindStringSubmatch(parts[0]); m != nil {
+				fn = m[1]
 			}
 		}
+		stack := hexRe.ReplaceAllString(r.Stack, "0x..")
+		r.Stack = stack
 		add("C20/panic/"+fn, fmt.Sprintf("panic: %v [%s]", r.Panic, r.Stack))
 	case r.Hang:
 		add("C20/hang", "the scan did not return within 10000 virtual seconds")
@@ -139,6 +144,7 @@ func C20Scenarios(tier string) []*h.Scenario {
 			hh.W.AddNode(a, sim.NodeOpt{Age: 22 * Q, ProviderID: sp("")})
 			hh.W.AddNode(a, sim.NodeOpt{Age: 23 * Q, ProviderID: sp("garbage"), TaintAge: dp(5 * Q)})
 			hh.W.AddNode(a, sim.NodeOpt{Age: 24 * Q, ProviderID: sp("aws://x")})
+			hh.W.AddNode(a, sim.NodeOpt{Age: 29 * Q, ProviderID: sp("aws:///az-a")})
 			for i, v := range []string{"", "abc", "-5", "99999999999999999999"} {
 				hh.W.AddNode(a, sim.NodeOpt{Age: time.Duration(25+i) * Q, TaintValue: sp(v)})
 			}
@@ -167,7 +173,7 @@ func C20Scenarios(tier string) []*h.Scenario {
 			}
 		}
 		s.Events = func(hh *h.Hist, slot int) []h.Event {
-			return []h.Event{evAddOddNode(g, ""), evAddOddNode(g, "garbage"), evAddOddNode(g, "aws://x"), evAddNoAllocNode(g), evBurst(g, 2, 900), evClearAllPods(g), evRestart(), evDescInsDown(),
+			return []h.Event{evAddOddNode(g, ""), evAddOddNode(g, "garbage"), evAddOddNode(g, "aws://x"), evAddOddNode(g, "aws:///az-a"), evAddOddNode(g, "aws:///az-a/"), evAddOddNode(g, "a/b/c/d/e/f"), evAddNoAllocNode(g), evBurst(g, 2, 900), evClearAllPods(g), evRestart(), evDescInsDown(),
 				{Label: "instances-never-ready", Apply: func(hh *h.Hist) { hh.W.ReadyFromPoll = -1 }}}
 		}
 		out = append(out, s)
@@ -203,7 +209,7 @@ func init() {
 	register(&Check{
 		ID:    "C20",
 		Level: "fault_enumeration",
-		Rule: "deviation-bounded DFS over 5..6-scan histories of worlds holding odd objects (no allocatable, provider ids \"\", \"garbage\", \"aws://x\", taint values \"\", \"abc\", \"-5\", 20 nines, pods without requests / containers / with empty and partial affinity), nodes with odd provider ids registering during a cool-down (SetDesiredCapacity and fleet mode), zero-capacity and vanished groups; " +
+		Rule: "deviation-bounded DFS over 5..6-scan histories of worlds holding odd objects (no allocatable, provider ids \"\", \"garbage\", \"aws://x\", \"aws:///az-a\", \"aws:///az-a/\", \"a/b/c/d/e/f\", taint values \"\", \"abc\", \"-5\", 20 nines, pods without requests / containers / with empty and partial affinity), nodes with odd provider ids registering during a cool-down (SetDesiredCapacity and fleet mode), zero-capacity and vanished groups; " +
 			"a failure is injected at every Kubernetes / AWS call and lister of every scan, up to 3 deviations (quick) / 4 (thorough), DescribeInstances failing slot-wide; non-trivial = scans with an injected fault or an odd object in view; distinct = distinct execution traces",
 		Scenarios: C20Scenarios,
 		Monitors:  func() []h.Monitor { return []h.Monitor{&NoCrash{D: NewDecisions()}} },
